@@ -72,7 +72,12 @@ def lines_to_path(lines: ArrayLike, index: Optional[NDArray[np.int64]] = None) -
         # convert lines to even number of (n, dimension) points
         lines = lines.reshape((-1, dimension))
         # merge duplicate vertices
-        unique, inverse = grouping.unique_rows(lines, digits=tol_path.merge_digits)
+        # `tol_path.merge` is relative to the size of the geometry (as it is in
+        # `Path.merge_vertices`): use a finer grid for segments smaller than unit size
+        digits, scale = tol_path.merge_digits, np.ptp(lines, axis=0).max()
+        if 0.0 < scale < 1.0:
+            digits = max(digits, util.decimal_to_digits(tol_path.merge * scale))
+        unique, inverse = grouping.unique_rows(lines, digits=digits)
         # use scipy edges_to_path to skip creating
         # a bajillion individual line entities which
         # will be super slow vs. fewer polyline entities
